@@ -494,14 +494,20 @@ inductive AttrsRes where
 
 /-- util.unmasked_attrs:
 ```
-maybe_masking = {o.name for b in baselist[1:] for o in b.contents.values()}
+maybe_masking = {o.name for b in baselist[1:] for o in b.contents.values() if not model.is_class_private(o.name)}
 return [o for o in baselist[0].contents.values() if o.isVisible and o.name not in maybe_masking]
 ```
 `masking` is ANY enumeration of the set `maybe_masking` (it is only asked `in`). -/
 def unmaskedAttrsWith (first : List Member) (masking : List Name) : List Member :=
   first.filter (fun o => o.visible && !(masking.contains o.name))
 
-def maskingNames (rest : List (List Member)) : List Name := (rest.map (·.map (·.name))).flatten
+/-- model.is_class_private: `name.startswith('__') and not name.endswith('__')` (Python mangles such a name in a
+class body: it neither masks nor is masked across classes) -/
+def isClassPrivate (name : Name) : Bool :=
+  (name.take 2 == [95, 95] && name.length ≥ 2) && !(endsWith name [95, 95])
+
+def maskingNames (rest : List (List Member)) : List Name :=
+  ((rest.map (·.map (·.name))).flatten).filter (fun n => !isClassPrivate n)
 
 def unmaskedAttrs (baselist : List (List Member)) : AttrsRes :=
   match baselist with
